@@ -2395,6 +2395,12 @@ class MovieExtendsHeaderBox(FullBox):
 
 @fourcc('saiz')
 class SampleAuxiliaryInformationSizesBox(FullBox):
+    def __init__(self, **kwargs):
+        super().__init__(**kwargs)
+        if isinstance(getattr(self, 'aux_info_type', None), str):
+            # the JSON form of this field is a hexadecimal string
+            self.aux_info_type = int(self.aux_info_type, 16)
+
     @classmethod
     def parse(clz, src, parent, **kwargs):
         rv = FullBox.parse(src, parent, **kwargs)
@@ -2624,6 +2630,12 @@ class ProtectionSchemeTypeBox(FullBox):
 @fourcc('saio')
 class SampleAuxiliaryInformationOffsetsBox(FullBox):
     DEPENDS_UPON = {'moof', 'senc', 'tfhd'}
+
+    def __init__(self, **kwargs):
+        super().__init__(**kwargs)
+        if isinstance(getattr(self, 'aux_info_type', None), str):
+            # the JSON form of this field is a hexadecimal string
+            self.aux_info_type = int(self.aux_info_type, 16)
 
     @classmethod
     def parse(clz, src, parent, **kwargs):
